@@ -137,6 +137,71 @@ Example C06_queue_example :
 Proof. eexists. split; [vm_compute; reflexivity|]. repeat split. Qed.
 
 (* ------------------------------------------------------------------------------------ *)
+(* (b') the destination: a file the aggregator creates, or a stream it shares (stdout)     *)
+From PV Require Import Model.Destination Proofs.DestinationProofs.
+
+(* For every destination kind - a named file (created/truncated by the aggregator) or a stream
+   the process already has open (phout without `destination`, sink: stdout / stderr) - every
+   earlier content [old] of it, both aggregator kinds, every queue size, encoder and history as
+   in C06_queue_complete: when Run has returned the destination holds what it held when it was
+   opened (nothing for a file, [old] for a stream) followed by exactly the encodings of the
+   accepted samples; nothing is left buffered or queued - the final flush happens for every
+   destination kind; the specification side [this_run] (evaluated by the check on the bytes the
+   IMPLEMENTATION left in the destination) returns exactly those encodings. *)
+Theorem C06_destination_complete : forall (A : Type) (enc : A -> option (list N)) (k : kind) (Q : nat) d old h s,
+  run A enc k Q (init A) h = Some s ->
+  reports_first A false h = true ->
+  Forall (enc_ok A enc) (reports_of A h) ->
+  ph s = Done ->
+  content d old s = opened d old ++ enc_all A enc (acc_log s)
+  /\ this_run d old (content d old s) = Some (enc_all A enc (acc_log s))
+  /\ buf s = [] /\ queue s = []
+  /\ N.of_nat (length (acc_log s)) + dropped s = N.of_nat (length (reports_of A h))
+  /\ (k = Blocking -> acc_log s = reports_of A h).
+Proof. exact destination_complete. Qed.
+Print Assumptions C06_destination_complete.
+
+(* phout with the real line encoder (handle = appendPhout + LF), any destination kind, a stream
+   that held complete lines before: after Run the destination parses line by line (strict parser
+   of the documented layout) to the earlier lines followed by exactly the reported samples, each
+   once, in order. *)
+Theorem C06_destination_lines : forall withid Q d old olds h s,
+  run psample (phout_enc withid) Blocking Q (init psample) h = Some s ->
+  reports_first psample false h = true ->
+  forallb sample_ok (reports_of psample h) = true ->
+  ph s = Done ->
+  parse_file withid old = Some olds ->
+  parse_file withid (content d old s)
+  = Some ((match d with DFile => [] | DStream => olds end) ++ map (norm withid) (reports_of psample h)).
+Proof. exact destination_lines. Qed.
+Print Assumptions C06_destination_lines.
+
+(* [this_run] accepts only "what the destination held when opened, then the returned bytes";
+   an output lacking a non-empty tail of the encodings (a skipped final flush) is rejected. *)
+Theorem C06_this_run_sound : forall d old obs r, this_run d old obs = Some r -> obs = opened d old ++ r.
+Proof. exact this_run_sound. Qed.
+Print Assumptions C06_this_run_sound.
+
+Theorem C06_missing_tail_rejected : forall d old written rest,
+  rest <> [] -> this_run d old (opened d old ++ written) <> Some (written ++ rest).
+Proof. exact this_run_detects_missing_tail. Qed.
+Print Assumptions C06_missing_tail_rejected.
+
+(* which destination a phout configuration denotes: no `destination` = the shared stream *)
+Theorem C06_phout_dest : phout_dest [] = DStream /\ forall c r, phout_dest (c :: r) = DFile.
+Proof. exact phout_dest_default. Qed.
+Print Assumptions C06_phout_dest.
+
+(* non-vacuity: two reports to a stream that already held one line ("7\n"); a partial flush, the
+   rest by the final flush *)
+Example C06_destination_example :
+  exists s, run N enc_demo Blocking 2 (init N) [Report 0 1; Report 1 2; Handle; Handle; Flush 3; Cancel; SeeCancel; Finish] = Some s
+            /\ ph s = Done /\ content DStream [7; 10] s = [7; 10; 1; 10; 2; 10]
+            /\ content DFile [7; 10] s = [1; 10; 2; 10]
+            /\ this_run DStream [7; 10] (content DStream [7; 10] s) = Some [1; 10; 2; 10].
+Proof. eexists. split; [vm_compute; reflexivity|]. repeat split. Qed.
+
+(* ------------------------------------------------------------------------------------ *)
 (* (c) when the aggregator is cancelled, when the process exits                          *)
 From PV Require Import Model.Shutdown Proofs.ShutdownProofs Gen.Phout_bridge.
 
